@@ -1,3 +1,2 @@
--- This module serves as the root of the `Verif` library.
--- Import modules here that should be built as part of the library.
-import Verif.Basic
+-- root of the library; modules are built by name (see ../check), nothing is imported here
+
